@@ -38,6 +38,10 @@ class C10(Prop):
                 "NV.C10.tie_headDec",
                 "NV.C10.tie_headDue_dec",
                 "NV.C10.tie_chunkPos",
+                "NV.C10.tie_dropCond",
+                "NV.C10.tie_infoSkip",
+                "NV.C10.tie_infoCount",
+                "NV.C10.fireOne_eq_spec",
                 "NV.C10.reloadObj_ok",
                 "NV.C10.sim_reload",
                 "NV.C10.first_is_earliest",
@@ -167,8 +171,8 @@ class C10(Prop):
                    "probe is outside the model",
                    "the static `cop` cleanup at the entry of call_out() (unreachable: every error is caught inside the loop), "
                    "current_interactive = 0, eval_cost across the callbacks of one sweep, shutdown's remove_all_call_out",
-                   "hand-copied predicates: byName, remove_all_call_out's owner test, get_all_call_outs' skip test, the "
-                   "destructed-owner test of call_out() (correspondence only)",
+                   "hand-copied predicates: byName, remove_all_call_out's owner test, allocCall's free-list test "
+                   "(correspondence only)",
                    "see notes/C10-coverage.md for the full map"]
 
     def gen_extra(self, ctx, bdir):
